@@ -11,7 +11,8 @@
 EXTENDS BebopWire, AsIs, Json
 
 CONSTANTS Prop,    \* the property being decided: "C01", "C02", ...
-          Devs     \* set of named deviations of the as-is model
+          Devs,    \* set of named deviations of the as-is model
+          CidBase  \* cases.ndjson holds the cases CidBase+1, CidBase+2, ... (a trace is validated in shards of whole cases)
 
 Schemas == ndJsonDeserialize("schemas.ndjson")
 Cases   == ndJsonDeserialize("cases.ndjson")
@@ -25,7 +26,7 @@ Has(e, f) == f \in DOMAIN e
 OutOf(e) == IF Has(e, "out") THEN e.out ELSE <<>>
 ValOf(e) == IF Has(e, "val") THEN e.val ELSE <<>>
 
-CaseOf(e)   == Cases[e.cid]
+CaseOf(e)   == Cases[e.cid - CidBase]
 SchemaOf(c) == Schemas[c.si].defs
 TypeOf(c)   == R(c.root)
 InOf(e)     == IF Has(e, "in") THEN e.in ELSE CaseOf(e).enc
